@@ -331,6 +331,41 @@ def mutants(doc, rng, full):
     return out
 
 
+COMMON_KEYS = ["id", "name", "taxonomy", "related", "level", "status", "tags", "date", "modified", "fields", "falsepositives",
+               "author", "description", "references", "title", "scope", "license"]
+SECTION_KEYS = {"logsource": ["category", "product", "service", "definition"],
+                "correlation": ["type", "rules", "generate", "group-by", "timespan", "aliases", "condition"],
+                "filter": ["rules", "condition"], "detection": ["condition"]}
+
+
+def all_wrong(doc, rng, n):
+    """several / all fields wrong at once: the whole error list and its order are observable"""
+    out = []
+    wrong = [5, [], {}, "", True, 1.5, ["x"], {"x": 1}, "x", None]
+    for w in wrong[:3]:
+        d = copy.deepcopy(doc)
+        for k in COMMON_KEYS: d[k] = copy.deepcopy(w)
+        out.append(d)
+        for sec, keys in SECTION_KEYS.items():
+            if isinstance(d.get(sec), dict):
+                d2 = copy.deepcopy(d)
+                for k in keys: d2[sec][k] = copy.deepcopy(w)
+                out.append(d2)
+                d3 = copy.deepcopy(doc)
+                for k in keys: d3[sec][k] = copy.deepcopy(w)
+                out.append(d3)
+    for _ in range(n):
+        d = copy.deepcopy(doc)
+        for k in rng.sample(COMMON_KEYS, rng.randint(2, 6)): d[k] = copy.deepcopy(rng.choice(wrong))
+        for sec, keys in SECTION_KEYS.items():
+            if isinstance(d.get(sec), dict) and rng.random() < 0.6:
+                for k in rng.sample(keys, rng.randint(1, len(keys))): d[sec][k] = copy.deepcopy(rng.choice(wrong))
+            elif rng.random() < 0.15:
+                d[sec] = copy.deepcopy(rng.choice(wrong))
+        out.append(d)
+    return out
+
+
 KINDS = {"rule": 0, "corr": 1, "filter": 2}
 
 
@@ -341,10 +376,10 @@ def gen_load(tier, rng):
         for d in docs:
             cases.append({"kind": kind, "doc": to_tag(d)})
             ms = mutants(d, rng, full)
-            if not full:
-                keep = 60
-                ms = rng.sample(ms, keep) if len(ms) > keep else ms
+            keep = 60 if not full else 600
+            ms = rng.sample(ms, keep) if len(ms) > keep else ms
             cases += [{"kind": kind, "doc": to_tag(m)} for m in ms]
+            cases += [{"kind": kind, "doc": to_tag(m)} for m in all_wrong(d, rng, 40 if full else 4)]
             # a document of one kind handed to the loader of another kind
             other = rng.choice([k for k in KINDS if k != kind])
             cases.append({"kind": other, "doc": to_tag(d)})
@@ -360,10 +395,15 @@ def gen_coll(tier, rng):
         ms = mutants(docs, rng, full)
         if not full:
             ms = rng.sample(ms, 45) if len(ms) > 45 else ms
-        elif len(ms) > 2500:
-            ms = rng.sample(ms, 2500)
+        elif len(ms) > 1200:
+            ms = rng.sample(ms, 1200)
         for m in ms:
             cases.append({"kind": "coll", "doc": to_tag(m if isinstance(m, list) else [m]), "lib": False})
+    for docs in COLLS:
+        for i, d in enumerate(docs):
+            if "action" in d and d["action"] != "repeat": continue
+            for m in all_wrong(d, rng, 6 if full else 1):
+                cases.append({"kind": "coll", "doc": to_tag(docs[:i] + [m] + docs[i + 1:]), "lib": False})
     # single documents wrapped in a collection, non-map members
     singles = RULES + CORRS + FILTERS
     for d in singles:
